@@ -4,6 +4,7 @@ import (
 	"context"
 	"encoding/json"
 	"fmt"
+	"net/url"
 	"os"
 	"path/filepath"
 	"strings"
@@ -100,6 +101,66 @@ func externalise(spec M, decoys bool) (M, M) {
 	}
 	ext := M{"components": comps}
 	return root, ext
+}
+
+type urlPair struct{ root, ref, abs string }
+
+var urlPairs = []urlPair{
+	{"https://specs.example/openapi?doc=root", "?doc=ext", "https://specs.example/openapi?doc=ext"},
+	{"https://specs.example/a/root.json", "ext.json", "https://specs.example/a/ext.json"},
+	{"https://specs.example/root.json", "https://other.example/root.json", "https://other.example/root.json"},
+	{"https://specs.example/root.json", "http://specs.example/root.json", "http://specs.example/root.json"},
+	{"https://specs.example:8443/root.json", "https://specs.example:9443/root.json", "https://specs.example:9443/root.json"},
+	{"https://specs.example/root.json?v=1", "https://specs.example/root.json?v=2", "https://specs.example/root.json?v=2"},
+	{"https://specs.example/a/b/root.json", "../root.json", "https://specs.example/a/root.json"},
+	{"https://specs.example/root.json?v=1", "root.json", "https://specs.example/root.json"},
+}
+
+// externaliseTo: externalise with decoys, the references written with the given prefix
+func externaliseTo(spec M, prefix string) (M, M) {
+	root, ext := externalise(spec, true)
+	root = rewriteRefs(root, func(s string) string {
+		if strings.HasPrefix(s, "ext.json#") {
+			return prefix + strings.TrimPrefix(s, "ext.json")
+		}
+		return s
+	}).(M)
+	return root, ext
+}
+
+type exactResolver map[string][]byte
+
+func (m exactResolver) Get(_ context.Context, loc string) ([]byte, error) {
+	if v, ok := m[loc]; ok {
+		return v, nil
+	}
+	return nil, fmt.Errorf("no such document %q", loc)
+}
+
+func parseProjectURL(root M, ext M, rootURL, extURL string) (string, error) {
+	data, _ := json.Marshal(root)
+	extData, _ := json.Marshal(ext)
+	var out string
+	var perr error
+	res := lp.Guard(func() string {
+		s, err := ogen.Parse(data)
+		if err != nil {
+			perr = err
+			return ""
+		}
+		ru, _ := url.Parse(rootURL)
+		api, err := parser.Parse(s, parser.Settings{External: exactResolver{extURL: extData}, RootURL: ru})
+		if err != nil {
+			perr = err
+			return ""
+		}
+		out = projectAPI(api)
+		return ""
+	})
+	if res == "panic" {
+		return "", fmt.Errorf("panic")
+	}
+	return out, perr
 }
 
 func parseProjectExt(root M, ext M) (string, error) {
@@ -215,6 +276,15 @@ func refVariants(r *lp.Run, rng *lp.Rand, prop string, n int, kinds ...string) {
 				rb, _ := json.Marshal(root)
 				eb, _ := json.Marshal(ext)
 				in["root"], in["ext.json"] = json.RawMessage(rb), json.RawMessage(eb)
+			case "components moved to a document addressed by URL (the root has a URL of its own and decoys of the same names)":
+				// the external document differs from the root's own URL in exactly one component (query, path, host,
+				// scheme, port); a reference into it must not be answered from the root
+				u := urlPairs[i%len(urlPairs)]
+				root, ext := externaliseTo(spec, u.ref)
+				b, errB = parseProjectURL(root, ext, u.root, u.abs)
+				rb, _ := json.Marshal(root)
+				eb, _ := json.Marshal(ext)
+				in["root"], in["root_url"], in["external_document"], in["external_url"], in["reference_prefix"] = json.RawMessage(rb), u.root, json.RawMessage(eb), u.abs, u.ref
 			case "components renamed (names made of the prefix's characters, dotted and prefixed sibling names)":
 				ren, mapping := renameAdversarial(rng, spec)
 				b, errB = parseProject(ren)
@@ -255,7 +325,7 @@ func c07Recursion(r *lp.Run, rng *lp.Rand) {
 	defer os.RemoveAll(mod.Dir)
 	ref := func(n string) M { return M{"$ref": "#/components/schemas/" + n} }
 	var jobs []*c02Job
-	edgeKinds := []string{"optional", "array", "nullable-optional", "map", "oneOf", "array-of-array", "optional-nullable-ref"}
+	edgeKinds := []string{"optional", "array", "nullable-optional", "map", "oneOf", "array-of-array", "optional-nullable-ref", "inline-sum", "inline-sum-behind", "inline-anyOf-behind"}
 	wheres := []string{"request body", "response", "webhook only", "webhook and path", "parameter content"}
 	n := len(edgeKinds)*len(wheres) + r.N(15, 300)
 	for i := 0; i < n; i++ {
@@ -292,6 +362,25 @@ func c07Recursion(r *lp.Run, rng *lp.Rand) {
 				props["next"] = ref(next)
 			}
 			s := M{"type": "object", "properties": props}
+			// an object that has properties *and* a oneOf/anyOf of objects holds its variants by value in an inlined sum
+			// field; the cycle runs through one variant
+			if strings.HasPrefix(edge, "inline-") {
+				kw := "oneOf"
+				if strings.Contains(edge, "anyOf") {
+					kw = "anyOf"
+				}
+				fv, dv := fmt.Sprintf("F%d", j), fmt.Sprintf("D%d", j)
+				schemas[fv] = M{"type": "object", "required": []any{"size"}, "properties": M{"size": M{"type": "integer"}}}
+				schemas[dv] = M{"type": "object", "required": []any{"count"}, "properties": M{"count": M{"type": "integer"}, "folder": ref(next)}}
+				sum := M{"type": "object", "required": []any{"id"}, "properties": M{"id": M{"type": "string"}}, kw: []any{ref(fv), ref(dv)}}
+				if edge == "inline-sum" {
+					s = sum
+				} else {
+					ev := fmt.Sprintf("E%d", j)
+					schemas[ev] = sum
+					props["entry"] = ref(ev)
+				}
+			}
 			if edge == "optional-nullable-ref" {
 				schemas[next+"Wrap"] = s
 			}
@@ -467,7 +556,12 @@ func c07Expand(r *lp.Run, rng *lp.Rand) {
 			}
 			if eerr != nil {
 				r.Count(fmt.Sprintf("expand %d %s", i, v.name), "expand:"+v.name+":refused", true)
-				continue // a located refusal (e.g. a name conflict between files) is an allowed outcome
+				// a located refusal (a name conflict between files) is an allowed outcome — but a document in one file
+				// that parsed (recursive schemas included) has nothing that could conflict: it must be emitted
+				if v.files == nil {
+					r.Fail(lp.PropFail{Property: "C07", What: "a single-file document that parses cannot be emitted in dereferenced form", Input: in, Observed: eerr.Error(), Expected: "a dereferenced spec"})
+				}
+				continue
 			}
 			var got string
 			{
